@@ -1380,6 +1380,58 @@ func scenBootstrapCrash(e *engineA) error {
 	return e.finish()
 }
 
+func init() { scenarios["bootstrap-after-vote"] = scenBootstrapAfterVote }
+
+// scenBootstrapAfterVote (C15): the operator gives the initial configuration
+// to one node, which starts campaigning but cannot reach a majority yet; a
+// second node, which has meanwhile granted its vote (its term has advanced),
+// is given the same configuration. The request may be refused or carried
+// out; the node must survive it and the cluster must come up.
+func scenBootstrapAfterVote(e *engineA) error {
+	e.prof = profiles["general"]
+	ids := []uint64{1, 2, 3, 4, 5}
+	e.ids = ids
+	for _, id := range ids {
+		if _, err := e.cl.start(id, e.cl.dirOf(id)); err != nil {
+			return err
+		}
+	}
+	e.cl.startTicker()
+	e.tickCounter()
+	n1, n2 := e.cl.node(1), e.cl.node(2)
+	for _, id := range ids[2:] {
+		o := e.cl.node(id)
+		e.net.Cut(n1.label, o.label, true)
+		e.net.Cut(o.label, n1.label, true)
+	}
+	conf := raft.Config{Nodes: map[uint64]raft.Node{}}
+	for _, id := range ids {
+		if err := conf.AddVoter(id, e.cl.addrOf(id)); err != nil {
+			return err
+		}
+	}
+	if err := e.cl.submitConfig(n1, "bootstrap", conf); err != nil {
+		return fmt.Errorf("bootstrap: %v", err)
+	}
+	if !e.waitFor(60, func() bool {
+		info, ok := n2.info(false)
+		return ok && info.Term >= 2 && !info.Configs.IsBootstrapped()
+	}) {
+		return fmt.Errorf("node 2 did not vote")
+	}
+	e.rc.emit(&ev.Rec{K: "fault", Op: "bootstrap-of-a-node-that-has-voted", Nid: 2})
+	err := e.cl.submitConfig(n2, "bootstrap", conf)
+	e.rc.emit(&ev.Rec{K: "lifecycle", Op: "bootstrap-after-vote", Kind: "returned", Note: fmt.Sprint(err), Cid: e.cl.cid})
+	e.net.HealAll(true)
+	if l := e.cl.waitLeader(200 * e.hb()); l == nil {
+		return fmt.Errorf("no leader after bootstrap")
+	}
+	e.cl.startInfoSampler(e.hb() / 2)
+	e.startClients(2, map[string]int{"update": 3, "read": 1})
+	e.sleepHB(4, 8)
+	return e.finish()
+}
+
 func init() { scenarios["window-crash"] = scenWindowCrash }
 
 // scenWindowCrash (C10 / C09): kill a node inside the windows that random
@@ -2463,6 +2515,30 @@ func scenLifecycle(e *engineA) error {
 	cancel()
 	if _, err := e.cl.start(f.nid, f.dir); err != nil {
 		e.rc.emit(&ev.Rec{K: "restart-failed", Cid: e.cl.cid, Nid: f.nid, Err: err.Error()})
+	}
+	// 4. a membership request naming an action that does not exist, for a
+	// follower and for the leader itself: an error is the only acceptable answer
+	for pass := 0; pass < 2; pass++ {
+		l = e.cl.leader()
+		if l == nil {
+			break
+		}
+		target := l.nid
+		if pass == 0 {
+			target = e.others(l)[0].nid
+		}
+		act := raft.Action(5 + e.rng.Intn(250))
+		err := e.cl.changeConfig(l, fmt.Sprintf("ILLEGAL-action(%d,%d)", target, act), func(c *raft.Config) error {
+			n := c.Nodes[target]
+			n.Action = act
+			c.Nodes[target] = n
+			return nil
+		})
+		if err == nil {
+			report("unknown-action", "accepted", fmt.Sprintf("node %d action %d", target, act))
+		} else {
+			report("unknown-action", "ok", err.Error())
+		}
 	}
 	e.startClients(2, map[string]int{"update": 3, "read": 1})
 	e.sleepHB(3, 6)
